@@ -9,7 +9,7 @@ Require Import Fggs.Model.Semiring Fggs.Model.SCC Fggs.Model.SumProduct Fggs.Mod
 Require Import Fggs.Proofs.BigSum Fggs.Proofs.SP_trees Fggs.Proofs.SP_nonrec Fggs.Proofs.SP_code
                Fggs.Proofs.SP_rename Fggs.Proofs.SP_spe Fggs.Proofs.SP_driver Fggs.Proofs.SP_main
                Fggs.Proofs.SP_corollaries Fggs.Proofs.SP_examples Fggs.Proofs.SP_check_sound
-               Fggs.Proofs.SP_scc_glue.
+               Fggs.Proofs.SP_scc_glue Fggs.Proofs.SP_empty_dom Fggs.Proofs.SP_shared_operand.
 Require Import Fggs.Model.EReal Fggs.Model.Trop Fggs.Proofs.Instances_scc Fggs.Proofs.Instances.
 
 (** * 0. The oracle of the correspondence check is sound *)
@@ -625,3 +625,43 @@ Theorem C01_end_to_end_hypotheses :
   /\ (forall l, tget (@nil (nat * table (R:=bool))) l <> None -> is_term G_ex l = true).
 Proof. exact end_to_end_hypotheses. Qed.
 Print Assumptions C01_end_to_end_hypotheses.
+
+(** * Size-0 domains and operands shared between levels (classes of the seeded regressions C01-f, C01-e) *)
+(** a rule with ANY node over an empty domain has no assignment: its value is zero *)
+Theorem C01_empty_domain_node_is_zero :
+  forall R (o : sr_ops R), sr_ring o ->
+  forall G (e : env (R:=R)) r xi, In 0 (node_sizes G r) -> rule_val o G e r xi = zero o.
+Proof. exact (fun R o H => @rule_val_empty_domain_node R o). Qed.
+Print Assumptions C01_empty_domain_node_is_zero.
+
+Theorem C01_empty_domain_rules_Zk_zero :
+  forall R (o : sr_ops R), sr_ring o ->
+  forall G (w : env (R:=R)) k X xi, is_term G X = false ->
+    (forall r, In r (rules_of G X) -> In 0 (node_sizes G r)) -> Zk o G w k X xi = zero o.
+Proof. exact (fun R o H => @Zk_empty_domain_rules R o H). Qed.
+Print Assumptions C01_empty_domain_rules_Zk_zero.
+
+(** the code-shaped model ([multiply_in_disconnected_internals] with multiplier 0) returns zero for an
+    unattached internal node over an empty domain, whatever the rest of the rule is worth *)
+Theorem C01_isolated_internal_node_empty_domain :
+  forall R (o : sr_ops R), sr_ring o ->
+  forall G e r nl xi, wf_rule G r = true -> nl < length (g_doms G) -> dom G nl = 0 ->
+    In xi (all_assts (lshape G (r_lhs r))) ->
+    oapp o (spe o (node_sizes G (add_node r nl)) e (r_edges r) (r_ext r)) xi = zero o.
+Proof. exact (fun R o H => @spe_isolated_internal_empty R o H). Qed.
+Print Assumptions C01_isolated_internal_node_empty_domain.
+
+Theorem C01_empty_domain_example :
+  wf_grammar G_empty = true /\ wf_rule G_empty r_empty = true /\ dom G_empty 1 = 0.
+Proof. exact G_empty_wf. Qed.
+Print Assumptions C01_empty_domain_example.
+
+(** S(c) -> t(c) X(a,b), X(a,b) -> t(a) u(b) over a 2-element domain: the nonterminal's variables are
+    independent of the parent's although both read the same factor t *)
+Theorem C01_shared_operand_independent :
+  forall R (o : sr_ops R), sr_ring o ->
+  forall (w : env (R:=R)) c, c < 2 ->
+    Zk o G_share w 2 3 [c]
+    = mul o (w 0 [c]) (mul o (add o (w 0 [0]) (w 0 [1])) (add o (w 1 [0]) (w 1 [1]))).
+Proof. exact (fun R o H => @shared_operand_S R o H). Qed.
+Print Assumptions C01_shared_operand_independent.
